@@ -34,13 +34,26 @@ PathReqs     == {a \o "_" \o v : a \in PathAnchors, v \in PathVariants}
 \* query made with access key k / secret s, a header signature made with key k and the EMPTY secret, and a
 \* syntactically complete signature header whose parts are garbage.
 SigReqs      == {"signed", "presigned", "signed0", "badsig"}
+\* Requests whose CONTEXT ENDS while they are being served - a client may go away, a deadline may pass at any
+\* moment: the context is already cancelled when the request arrives ("gone"); the client disconnects while a
+\* backend call is in progress ("cancelmid": the harness's backend cancels the request's context the moment the
+\* call reaches it; for a kind that calls no backend it stays a live cancellable request); the deadline expires
+\* while a backend call or - with a failing backend and a retry policy - the back-off between two attempts is in
+\* progress ("expire": deadline 10 ms, the backend answers after 60 ms; Proxy retry class "rwait" backs off 40 ms).
+\* Every layer between the request and the backend (resilience wrappers, pools, filters) must hand the outcome
+\* up in a form the next layer is prepared for.
+CtxReqs      == {"gone", "cancelmid", "expire"}
 HttpReqs   == {"plain", "body", "basic", "bearer", "stream", "resp", "gz", "preflight", "jsonarr", "respstream"}
-                 \cup PathReqs \cup SigReqs
-ServerReqs == {"plain", "body", "hdr", "big", "acme", "host"} \cup PathReqs   \* real HTTP requests to a started HTTPServer
+                 \cup PathReqs \cup SigReqs \cup CtxReqs
+\* real HTTP requests to a started HTTPServer ("abort": the client sends the head and a part of the announced
+\* body and closes the connection)
+ServerReqs == {"plain", "body", "hdr", "big", "acme", "host", "abort"} \cup PathReqs
 MqttReqs   == {"connect", "pubsub"}                                  \* MQTT sessions against a started MQTTProxy
 \* handler outcomes under a resilience wrapper: single calls, a failure burst that opens a circuit and probes it
-\* half open, a recovery (wait, successes until the circuit closes, failures on the fresh window), slow handlers
-PolicyReqs == {"ok", "fail", "burst", "cancelled", "recover", "slow"}
+\* half open, a recovery (wait, successes until the circuit closes, failures on the fresh window), slow handlers,
+\* a context cancelled before the call ("cancelled") and by the failing handler itself, i.e. while the call is in
+\* progress ("cancelmid")
+PolicyReqs == {"ok", "fail", "burst", "cancelled", "cancelmid", "recover", "slow"}
 AllReqs    == HttpReqs \cup ServerReqs \cup MqttReqs \cup PolicyReqs
 
 (***************************************************************************************************)
@@ -62,36 +75,43 @@ Reqs(k) == IF k \in PolicyKinds THEN PolicyReqs
 
 AdaptHeader == <<"-", "set", "add", "del", "all", "nullval", "emptyobj">>
 
+\* Enum-like string fields (schema enum= / format=httpmethod tags, values compared with == in Validate(), Init()
+\* and at request time: compress/decompress codings, load-balance and matcher policies, sliding window type,
+\* back-off policy, algorithms, modes, protocols, packet types, HTTP methods, filter kinds, the END node) carry,
+\* next to their valid and bogus values, the class "A VALID VALUE WRITTEN IN ANOTHER LETTER CASE" (GZIP, Gzip,
+\* RoundRobin, time_based, hs256, get ...): the sites that accept a value and the sites that use it must agree on
+\* the letter case as well.
+
 Fields(k) ==
   CASE k = "Proxy" ->
        << F("servers",      <<"one", "two", "dead", "hostname", "badurl", "nourl", "null", "empty", "none", "svcname">>),
           F("weights",      <<"-", "all", "some", "zero", "neg">>),
-          F("lb",           <<"-", "roundRobin", "random", "weightedRandom", "ipHash", "headerHash", "emptyobj", "bogus">>),
+          F("lb",           <<"-", "roundRobin", "random", "weightedRandom", "ipHash", "headerHash", "emptyobj", "bogus", "RoundRobin", "IPHASH">>),
           F("hashkey",      <<"-", "X-A">>),
           F("timeout",      <<"-", "50ms", "0s", "-1s", "1ns", "bogus">>),
-          F("retry",        <<"-", "r1", "cb1", "undef">>),
+          F("retry",        <<"-", "r1", "cb1", "undef", "rwait">>),
           F("cb",           <<"-", "cb1", "r1", "undef">>),
           F("failureCodes", <<"-", "503", "200", "empty", "999">>),
-          F("memoryCache",  <<"-", "ok", "exp0", "expNeg", "badExp", "zeroBytes", "noMethods", "noCodes", "emptyobj">>),
+          F("memoryCache",  <<"-", "ok", "exp0", "expNeg", "badExp", "zeroBytes", "noMethods", "noCodes", "emptyobj", "lowerMethods">>),
           F("maxBody",      <<"-", "-1", "1", "0">>),
           F("mainPools",    <<"one", "zero", "two", "absent", "null">>),
           F("candidate",    <<"-", "hdr", "hdrAll", "regex", "badregex", "urls", "urlNoMatch", "urlNull", "nullhdr", "emptyhdr",
                               "noHeaders", "emptyobj", "ipHash", "ipHashRegexHdr", "random1000", "permil0", "permil1001",
-                              "headerHash", "headerHashNoKey", "bogus">>),
+                              "headerHash", "headerHashNoKey", "bogus", "policyUpper", "urlsLowerMethod">>),
           F("mirror",       <<"-", "ok", "hdr", "dead", "nofilter", "withcache", "noservers", "wrnd">>),
           F("compression",  <<"-", "0", "10", "4294967295", "emptyobj">>),
           F("mtls",         <<"-", "garbage", "badb64", "partial">>),
           F("maxIdle",      <<"-", "0", "-1">>),
           F("maxIdleHost",  <<"-", "0", "-1">>),
-          F("topMaxBody",   <<"-", "-1", "1">>) >>      \* (the pipeline around it defines Retry r1 and CircuitBreaker cb1)
+          F("topMaxBody",   <<"-", "-1", "1">>) >>      \* (the pipeline around it defines Retry r1, rwait and CircuitBreaker cb1)
     [] k = "Validator" ->
        << F("headers",   <<"-", "values", "regexp", "emptyval", "null", "badre", "emptyobj">>),
-          F("jwt",       <<"-", "HS256", "HS512", "cookie", "noSecret", "noAlg", "badAlg", "oddSecret", "emptyobj">>),
+          F("jwt",       <<"-", "HS256", "HS512", "cookie", "noSecret", "noAlg", "badAlg", "oddSecret", "emptyobj", "lowerAlg">>),
           F("sig",       <<"-", "keys", "emptyobj", "emptyKeys", "idOnly", "ttl", "badTTL", "literalPartial", "literalFull", "hoist",
                            "emptySecret", "emptyId", "nullSecret", "mixedEmpty", "idNoSecret">>),
           F("oauth2",    <<"-", "jwt", "jwtNoSecret", "emptyobj", "introspectLive", "introspectBasic", "introspectDead",
-                           "introspectBadURL", "introspectNoEnd", "both">>),
-          F("basicAuth", <<"-", "fileOk", "fileMissing", "emptyobj", "etcd", "etcdPrefix", "badMode">>) >>
+                           "introspectBadURL", "introspectNoEnd", "both", "jwtLowerAlg">>),
+          F("basicAuth", <<"-", "fileOk", "fileMissing", "emptyobj", "etcd", "etcdPrefix", "badMode", "lowerMode">>) >>
     [] k = "RateLimiter" ->
        << F("policies",   <<"one", "two", "dup", "noName", "none", "null", "absent">>),
           F("refresh",    <<"10ms", "-", "0s", "-1s", "1h", "1ns", "bogus">>),
@@ -99,27 +119,27 @@ Fields(k) ==
           F("limit",      <<"5", "-", "1", "0", "-1", "1000000000">>),
           F("defaultRef", <<"-", "p1", "undef">>),
           F("urls",       <<"one", "exact", "regex", "badregex", "emptyMatch", "emptyTrue", "noURL", "methods", "badMethod",
-                            "noRef", "undefRef", "two", "none", "null", "absent">>) >>
+                            "noRef", "undefRef", "two", "none", "null", "absent", "lowerMethod">>) >>
     [] k = "RequestAdaptor" ->
        << F("host",       <<"-", "h.example">>),
-          F("method",     <<"-", "POST", "FETCH">>),
+          F("method",     <<"-", "POST", "FETCH", "post">>),
           F("path",       <<"-", "replace", "addPrefix", "trimPrefix", "regexp", "badregexp", "noregexp", "noSlash", "emptyobj", "all">>),
           F("header",     AdaptHeader),
           F("body",       <<"-", "text">>),
-          F("compress",   <<"-", "gzip", "deflate">>),
-          F("decompress", <<"-", "gzip", "deflate">>) >>
+          F("compress",   <<"-", "gzip", "deflate", "GZIP">>),
+          F("decompress", <<"-", "gzip", "deflate", "Gzip">>) >>
     [] k = "ResponseAdaptor" ->
        << F("header",     AdaptHeader),
           F("body",       <<"-", "text">>),
-          F("compress",   <<"-", "gzip", "deflate">>),
-          F("decompress", <<"-", "gzip", "deflate">>) >>
+          F("compress",   <<"-", "gzip", "deflate", "GZIP">>),
+          F("decompress", <<"-", "gzip", "deflate", "Gzip">>) >>
     [] k \in {"RequestBuilder", "ResponseBuilder"} ->
        << F("template",        <<"ok", "-", "useReq", "useBody", "useJSON", "useResp", "missingNs", "syntaxErr", "badFunc",
                                  "divzero", "notYaml", "badMethod", "scalar", "emptyDoc">>),
           F("sourceNamespace", <<"-", "DEFAULT", "other">>),
           F("leftDelim",       <<"-", "[[">>),
           F("rightDelim",      <<"-", "]]">>),
-          F("protocol",        <<"-", "http", "mqtt", "bogus">>) >>
+          F("protocol",        <<"-", "http", "mqtt", "bogus", "HTTP">>) >>
     [] k = "Mock" ->
        << F("rules",        <<"one", "two", "noMatch", "none", "null", "nullThenOne", "absent">>),
           F("code",         <<"200", "-", "0", "99", "600", "204">>),
@@ -151,14 +171,14 @@ Fields(k) ==
     [] k = "MeshAdaptor" ->
        << F("canaries", <<"one", "none", "null", "absent">>),
           F("header",   <<"set", "-", "del", "all", "nullval", "emptyobj">>),
-          F("filter",   <<"hdr", "-", "regex", "random", "noHeaders", "nullhdr">>) >>
+          F("filter",   <<"hdr", "-", "regex", "random", "noHeaders", "nullhdr", "policyUpper">>) >>
     [] k = "Retry" ->
        << F("maxAttempts",  <<"-", "1", "2", "0", "-1">>),
           F("waitDuration", <<"1ms", "-", "0s", "-1ms", "bogus">>),
-          F("backOff",      <<"-", "random", "exponential", "bogus">>),
+          F("backOff",      <<"-", "random", "exponential", "bogus", "Exponential">>),
           F("factor",       <<"-", "0", "0.5", "1", "1.5", "-0.5">>) >>
     [] k = "CircuitBreaker" ->
-       << F("windowType", <<"-", "COUNT_BASED", "TIME_BASED", "bogus">>),
+       << F("windowType", <<"-", "COUNT_BASED", "TIME_BASED", "bogus", "time_based">>),
           F("failRate",   <<"-", "0", "1", "100", "101">>),
           F("slowRate",   <<"-", "0", "1", "100", "101">>),
           F("netErr",     <<"-", "true">>),
@@ -170,8 +190,9 @@ Fields(k) ==
           F("waitOpen",   <<"2ms", "-", "0s", "-1s">>) >>
     [] k = "Pipeline" ->
        << F("filters",    <<"mock", "mock2", "proxy", "builder", "fallback", "none", "absent", "null", "dupName", "endName",
-                            "badKind", "noName">>),
-          F("flow",       <<"-", "all", "withEnd", "onlyEnd", "unknown", "twice", "alias", "reversed", "empty", "null", "noFilterKey">>),
+                            "badKind", "noName", "lowerKind">>),
+          F("flow",       <<"-", "all", "withEnd", "onlyEnd", "unknown", "twice", "alias", "reversed", "empty", "null", "noFilterKey",
+                            "lowerEnd">>),
           F("jumpIf",     <<"-", "toEnd", "fwd", "self", "badResult", "undefTarget", "emptyTarget">>),
           F("ns",         <<"-", "DEFAULT", "other">>),
           F("resilience", <<"-", "retry", "both", "dupName", "badKind", "noName", "null", "empty">>) >>
@@ -195,7 +216,7 @@ Fields(k) ==
                                    "rewriteRegexp", "rewriteMixed", "rewriteNoPath", "exactSlash", "rewriteExactSlash">>),
           F("backend",           <<"pl", "unknown", "absent", "empty">>),
           F("headers",           <<"-", "values", "regexp", "all", "badregexp", "neither", "noKey", "null">>),
-          F("methods",           <<"-", "GET", "bogus", "dup">>),
+          F("methods",           <<"-", "GET", "bogus", "dup", "lower">>),
           F("pathMaxBody",       <<"-", "-1", "1">>),
           F("pathIPFilter",      <<"-", "allowLocal", "blockLocal">>),
           F("globalFilter",      <<"-", "undef">>) >>
@@ -206,11 +227,11 @@ Fields(k) ==
           F("maxConn",        <<"-", "1", "0", "-1">>),
           F("connLimit",      <<"-", "req", "bytes", "both", "zero", "neg", "emptyobj">>),
           F("pubLimit",       <<"-", "req", "bytes", "both", "zero", "neg", "emptyobj">>),
-          F("rules",          <<"-", "connect", "publish", "all", "noWhen", "emptyWhen", "badType", "dup", "noPipeline", "null", "empty">>) >>
+          F("rules",          <<"-", "connect", "publish", "all", "noWhen", "emptyWhen", "badType", "dup", "noPipeline", "null", "empty", "lowerType">>) >>
     [] k = "KafkaMQTT"     -> << F("spec", <<"ok", "noMQTT", "noBackend", "empty">>) >>
     [] k = "Kafka"         -> << F("spec", <<"ok", "noBackend", "noTopic", "empty">>) >>
     [] k = "RemoteFilter"  -> << F("spec", <<"ok", "badURL", "badTimeout", "empty">>) >>
-    [] k = "CertExtractor" -> << F("spec", <<"ok", "badTarget", "noHeaderKey", "empty">>) >>
+    [] k = "CertExtractor" -> << F("spec", <<"ok", "badTarget", "noHeaderKey", "empty", "upperTarget">>) >>
 
 Range(s)      == {s[i] : i \in DOMAIN s}
 NFields(k)    == Len(Fields(k))
